@@ -249,7 +249,9 @@ def one_scenario(ctx, S, nonmonotone, n_calls, corrs):
                     want = [g[0][1] * f_of(g[0]), g[-1][2] * f_of(g[-1]), max(r[3] * f_of(r) for r in g), min(r[4] * f_of(r) for r in g),
                             sum(r[5] * (1 / f_of(r)) for r in g), sum(r[6] for r in g)]
                     if any(abs(a - b) > 1e-9 * max(1.0, abs(b)) for a, b in zip(v, want)):
-                        ctx.witness("C20.2", {"kind": "weekly_bar", "adjust": adj}, "DataProxy.history_bars(%s, %d, '1w', end=%s, include_now=%s, adjust=%s): week of %s returned %r, aggregation of the adjusted daily bars %r"
+                        # (with a factor table that returns to an earlier value the daily window can come back unadjusted: finding F15, same signature as for '1d')
+                        ctx.witness("C20.2", {"kind": "adjust", "nonmonotone_factors": True, "weekly": True} if nonmonotone else {"kind": "weekly_bar", "adjust": adj},
+                                    "DataProxy.history_bars(%s, %d, '1w', end=%s, include_now=%s, adjust=%s): week of %s returned %r, aggregation of the adjusted daily bars %r"
                                     % (st["id"], n, d8, inow, adj, g[0][0] // 1000000, v, want), {"id": st["id"], "n": n, "dt": str(dt), "include_now": inow, "adjust": adj})
                         break
             else:
